@@ -43,6 +43,12 @@ SUBS = [
     (r"\bMAX_LENGTH\b", "(MAX_LENGTH - 1)"), (r"\bpre_release\.is_empty\(\)", "build.is_empty()"),
     (r"\.then\(", ".or("), (r"\bself\b(?=\.(lower|upper))", "other"), (r"\bother\b(?=\.(lower|upper))", "self"),
     (r"\.lower\b", ".upper"), (r"\.upper\b", ".lower"),
+    (r"\bv1\b", "v2"), (r"\bv2\b", "v1"), (r"\blower\b", "upper"), (r"\bupper\b", "lower"),
+    (r"(?<![<=-])<(?![=<])(?=\s)", ">"), (r"(?<![->=])>(?![=>])(?=\s)", "<"), (r"\.rev\(\)", ""),
+    (r"\bhigh_version\b", "low_version"), (r"\blow_version\b", "high_version"),
+    (r"\bNumeric\b", "AlphaNumeric"), (r"\bPre(Major|Minor|Patch)\b", r"\1"), (r"\b(Major|Minor|Patch)\b", r"Pre\1"),
+    (r"\.is_prerelease\(\)", ".pre_release.is_empty()"), (r"\bUnbounded\b", "Including(Version::from((0, 0, 0)))"),
+    (r"\bintersect\b", "difference"), (r"\ballows_any\b", "allows_all"), (r"\ballows_all\b", "allows_any"),
 ]
 
 
@@ -58,10 +64,19 @@ def mutants():
     for rel in REGIONS:
         lines = open(os.path.join("/repo", rel)).read().split("\n")
         end = region_end(lines)
+        in_block = False
         for i in range(end):
             l = lines[i]
             st = l.strip()
-            if not st or st.startswith("//") or st.startswith("#[") or st.startswith("#!["):
+            if in_block:
+                if "*/" in st:
+                    in_block = False
+                continue
+            if st.startswith("/*"):
+                if "*/" not in st:
+                    in_block = True
+                continue
+            if not st or st.startswith("//") or st.startswith("#[") or st.startswith("#![") or st.startswith("debug_assert!"):
                 continue
             code = l.split("//")[0] if "//" in l and '"' not in l else l
             for pat, rep in SUBS:
@@ -134,10 +149,17 @@ def main():
     ap.add_argument("--limit", type=int, default=0)
     ap.add_argument("--list", action="store_true")
     ap.add_argument("--props", default=None)
+    ap.add_argument("--reuse", default=None, help="jsonl of an earlier sweep: mutants it found not to compile / killed by the suite are skipped")
     a = ap.parse_args()
     ms = mutants()
     if a.only:
         ms = [m for m in ms if re.search(a.only, "%s:%d %s" % (m["file"], m["line"], m["old"]))]
+    if a.reuse and os.path.exists(a.reuse):
+        old = {}
+        for l in open(a.reuse):
+            r = json.loads(l)
+            old[(r["file"], r["line"], r["new"])] = r["status"]
+        ms = [m for m in ms if old.get((m["file"], m["line"], m["new"])) not in ("nocompile", "suite-kills")]
     if a.limit:
         ms = ms[:a.limit]
     print("%d mutants" % len(ms), flush=True)
